@@ -581,3 +581,75 @@ def regex_cases(seed, n):
         src = f'{f}({a1}, {a2}{fl})'
         cases.append((eval_line(src, ent, hostfns=False), f'{src}  p={pat!r} s={sub!r}'))
     return cases
+
+
+# ------------------------------------------------------------------ re-entrant lambdas (C07, C10)
+def reentry_cases(seed, n):
+    """one lambda active several times at once: recursion, mutual recursion, a lambda handed to itself, recursion inside
+    map / sorted callbacks and under try_apply - with every parameter READ AGAIN AFTER the inner call has returned (or raised),
+    so that each activation must have kept its own bindings"""
+    cases = []
+    for i in range(n):
+        r = random.Random(f'{seed}/reentry/{i}')
+        k = r.randrange(12)
+        a, b = r.randrange(2, 7), r.randrange(1, 5)
+        if k == 0:
+            src = f'f = n => 1 if n < 2 else f(n - 1) * n\nf({a})'
+        elif k == 1:
+            src = f'f = n => 0 if n < 1 else f(n - 1) + n\n[f({a}), f({b})]'
+        elif k == 2:
+            src = f'ap = (g, v) => g(v) + v\nap(w => ap(u => u * {b}, w + 1), {a})'
+        elif k == 3:
+            src = f'fib = n => n if n < 2 else fib(n - 1) + fib(n - 2)\nfib({a + 2})'
+        elif k == 4:
+            elems = ", ".join(str(r.randrange(9)) for _ in range(a))
+            src = f'xs = [{elems}]\nwalk = (l, i) => [] if i >= len(l) else walk(l, i + 1) + [l[i]]\nwalk(xs, 0)'
+        elif k == 5:
+            src = f'd = n => [n] if n < 1 else map([1, 2], k => len(d(n - 1)) + k + n)\nd({min(a, 3)})'
+        elif k == 6:
+            src = f'f = n => n if n < 1 else try_apply(f, n - 1) + n\nf({a})'
+        elif k == 7:
+            src = f'ev = n => True if n == 0 else od(n - 1) and n > 0\nod = n => False if n == 0 else ev(n - 1) or n < 0\n[ev({a}), od({a}), ev({b})]'
+        elif k == 8:
+            src = f'f = (n, acc) => acc if n < 1 else [f(n - 1, acc + [n]), n, acc][0] + [n]\nf({min(a, 4)}, [])'
+        elif k == 9:
+            src = f'g = (h, n) => n if n < 1 else h(h, n - 1) + n * {b}\ng(g, {a})'
+        elif k == 10:
+            src = f'f = n => "" if n < 1 else f(n - 1) + str(n) + f(n - 2)\nf({min(a, 5)})'
+        else:
+            src = f'boom = n => undefined_name if n < 1 else try_apply(boom, n - 1)\nf = n => [try_apply(boom, n), n]\nf({a})'
+        cases.append((eval_line(src, '', hostfns=True, modelparser=True), src))
+    return cases
+
+
+# ------------------------------------------------------------------ literals evaluated more than once (C14, C11, C07)
+def literal_fresh_cases(seed, n):
+    """a list / dict literal inside a lambda body, a map callback or a statement that runs several times builds a NEW container
+    every time it is evaluated: what one evaluation's container receives (push, pop, index write, del) is not seen by the
+    next one"""
+    cases = []
+    LITS = ['[1, 2, 3]', '[]', '[0, 0]', '["a", "b"]', '[[1], [2]]', '{"a": 1}', '{}', '[1.5, None, True]', '[[]]', '{"k": [1]}']
+    for i in range(n):
+        r = random.Random(f'{seed}/litfresh/{i}')
+        lit = r.choice(LITS)
+        isd = lit.startswith('{')
+        mut = r.choice(['v["z"] = 9', 'v["a"] = 5', 'remove(v, "a")'] if isd else ['v.push(9)', 'push(v, 7)', 'insert(v, 0, 4)', 'v[0] = 8', 'pop(v)', 'del v[0]', 'v += [5]'])
+        k = r.randrange(8)
+        if k == 0:
+            src = f'mk = n => {lit}\nv = 0\ntry_apply(w => push(mk(0), 1), 0)\ntry_apply(w => pop(mk(0)), 0)\n[len(mk(0)), mk(0)]'
+        elif k == 1:
+            src = f'rows = []\nmap([1, 2, 3], i => rows.push({lit}))\ntry_apply(w => push(rows[0], 7), 0)\nrows'
+        elif k == 2:
+            src = f'mk = n => {lit}\na = mk(0)\nb = mk(1)\nv = a\ntry_apply(w => 0, 0)\n[a, b, mk(2)]'
+        elif k == 3:
+            src = f'acc = []\nf = x => push(acc, {lit})\nf(1)\nf(2)\ntry_apply(w => push(acc[0], 5), 0)\ntry_apply(w => pop(acc[1]), 0)\nacc'
+        elif k == 4:
+            src = f'g = x => pop({lit})\n[try_apply(g, 0), try_apply(g, 0), try_apply(g, 0)]' if not isd else f'g = x => len({lit})\n[g(0), g(0)]'
+        elif k == 5:
+            src = f'h = x => push({lit}, x)\nh(1)\nh(2)\nmk = n => {lit}\nmk(0)' if not isd else f'mk = n => {lit}\nd = mk(0)\ntry_apply(w => 0, 0)\n[mk(0), d]'
+        elif k == 6:
+            src = f'out = map([1, 2], i => {lit})\ntry_apply(w => push(out[0], 3), 0)\nout'
+        else:
+            src = f'sorted([2, 1], i => len(push({lit}, i)))\nmk = n => {lit}\nmk(0)' if not isd else f'out = map([1, 2], i => {lit})\nout'
+        cases.append((eval_line(src, '', hostfns=True, modelparser=True), src))
+    return cases
